@@ -292,7 +292,7 @@ theorem OrdInv.step {st0 : Core} (hwf : TreeWF st0) {s : Core} (f : Frame) (fs :
       | false => exact expandCase x r hr rfl e1 e2
       | true => exact exemptCase x r rfl e1 e2
   | run c a late =>
-    have e2 : (stepFrame s (Frame.run c a late)).2 = [] := by
+    have e2 : (stepFrame s (Frame.run c a late)).2 = closureFrames c := by
       by_cases hn : c.nested = true
       · simp only [stepFrame, hn, if_true]
       · simp only [stepFrame, hn, if_false, Bool.false_eq_true]
@@ -300,20 +300,34 @@ theorem OrdInv.step {st0 : Core} (hwf : TreeWF st0) {s : Core} (f : Frame) (fs :
       by_cases hn : c.nested = true
       · simp only [stepFrame, hn, if_true, newStored_log, regCleanup_log, logEv_log]
       · simp only [stepFrame, hn, if_false, Bool.false_eq_true, logEv_log]
-    rw [e2, List.nil_append]
+    rw [e2]
+    -- what the closure owns is dropped by an exempt frame
+    have hex : ∀ g, g ∈ closureFrames c → fOwner g = none := by
+      intro g hg
+      unfold closureFrames at hg
+      split at hg
+      · simp only [List.mem_singleton] at hg; subst hg; rfl
+      · cases hg
+    have hstack : (closureFrames c ++ fs).Pairwise (Rfr st0) :=
+      List.pairwise_append.mpr ⟨pairwise_of_all (fun x hx y _ => Rfr_of_none_left (hex x hx)), htail,
+        fun g hg g' _ => Rfr_of_none_left (hex g hg)⟩
+    have ext : ∀ (l : List Nat), (∀ a', a' ∈ l → ∀ g, g ∈ fs → Rlog st0 a' g) →
+        ∀ a', a' ∈ l → ∀ g, g ∈ closureFrames c ++ fs → Rlog st0 a' g := by
+      intro l hl a' ha' g hg
+      rcases List.mem_append.mp hg with hg | hg
+      · exact Rlog_of_none (hex g hg)
+      · exact hl a' ha' g hg
     cases late with
     | true =>
-      refine ⟨hshr, ⟨suf ++ [Ev.c c.tag c.cid a true], by rw [e1, hlog, List.append_assoc], ?_, ?_⟩, htail⟩
-      · have : ows (suf ++ [Ev.c c.tag c.cid a true]) = ows suf := by
-          simp [ows, List.filterMap_append]
-        rw [this]; exact hpw
-      · have : ows (suf ++ [Ev.c c.tag c.cid a true]) = ows suf := by
-          simp [ows, List.filterMap_append]
-        rw [this]; exact hlf_tail
+      have hows : ows (suf ++ [Ev.c c.tag c.cid a true]) = ows suf := by
+        simp [ows, List.filterMap_append]
+      refine ⟨hshr, ⟨suf ++ [Ev.c c.tag c.cid a true], by rw [e1, hlog, List.append_assoc], ?_, ?_⟩, hstack⟩
+      · rw [hows]; exact hpw
+      · rw [hows]; exact ext _ hlf_tail
     | false =>
       have hows : ows (suf ++ [Ev.c c.tag c.cid a false]) = ows suf ++ [a] := by
         simp [ows, List.filterMap_append]
-      refine ⟨hshr, ⟨suf ++ [Ev.c c.tag c.cid a false], by rw [e1, hlog, List.append_assoc], ?_, ?_⟩, htail⟩
+      refine ⟨hshr, ⟨suf ++ [Ev.c c.tag c.cid a false], by rw [e1, hlog, List.append_assoc], ?_, ?_⟩, hstack⟩
       · rw [hows]
         refine List.pairwise_append.mpr ⟨hpw, List.pairwise_singleton _ _, ?_⟩
         intro a' ha' b hb
@@ -323,6 +337,7 @@ theorem OrdInv.step {st0 : Core} (hwf : TreeWF st0) {s : Core} (f : Frame) (fs :
         simp only [Rlog, fOwner] at this
         exact this.1
       · rw [hows]
+        refine ext _ ?_
         intro a' ha' g hg
         rcases List.mem_append.mp ha' with ha' | ha'
         · exact hlf_tail a' ha' g hg
